@@ -32,7 +32,7 @@ CHECK = {
         "an import that takes arbitrarily long (FIFO as first queued capture) is a legitimate state of the manager",
     ],
     "campaigns": [
-        {"test": "TestVerifC19", "checks": {"quick": 3000, "thorough": 120000},
+        {"test": "TestVerifC19", "checks": {"quick": 3000, "thorough": 100000},
          "timeout": {"quick": 600, "thorough": 3600}, "shrinktime": "20s"},
         # two hand-written request lists (textbook traversal spellings; duplicates, aborted and concurrent uploads)
         {"test": "TestVerifC19Fixed", "fixed": True, "checks": {"quick": 1, "thorough": 1}},
